@@ -26,6 +26,22 @@ INIT_T = -1
 _ANY = object()
 
 
+def canon(v):
+    """Hashable, type-exact token for a stored value.  Tagged unique ids (non-empty str) stay themselves; None stays None
+    (a stored None and an absent key are indistinguishable to a reader, and the model treats them alike); every other
+    value - the falsy ones 0, "", False, 0.0, [], {} the workloads write - becomes "<type:repr>", so that 0, False and 0.0
+    are different values for the model and unhashable values can live in sets."""
+    if v is None:
+        return None
+    if isinstance(v, str) and v and not v.startswith("<"):
+        return v
+    return f"<{type(v).__name__}:{v!r}>"
+
+
+def is_tagged(c):
+    return isinstance(c, str) and not c.startswith("<")
+
+
 def drain_policy(policy, limit: int):
     """Keys a deep copy of the policy yields from evict() until None. (list, terminated?)"""
     p = copy.deepcopy(policy)
@@ -76,7 +92,7 @@ class Mon:
         self._viol_keys: set = set()
         self.samples = 0
         for k in keys:
-            v = init.get(k)
+            v = canon(init.get(k))
             self.writes[k].append({"kind": "init", "key": k, "val": v, "start": INIT_T, "end": INIT_T, "strong": True})
             self.timeline[k] = [(INIT_T, v)]
             if v is not None:
@@ -100,10 +116,10 @@ class Mon:
     def sample_backing(self):
         t = self.now()
         for k in self.keys:
-            v = self.backing.get_sync(k)
+            v = canon(self.backing.get_sync(k))
             tl = self.timeline[k]
             if tl[-1][1] != v:
-                if v is not None and v in self.seen_backing[k]:
+                if is_tagged(v) and v in self.seen_backing[k]:
                     # unique values: the backing store went back to a value it had already replaced
                     self.facts[k].append((t, "backing-store-value-reappears", {"value": v, "replaced": tl[-1][1]}))
                 tl.append((t, v))
@@ -181,7 +197,7 @@ class Mon:
                         # a delete supersedes the dirty value; but until it lands the backing store may expose a value older than it
                         dv = rec.get("prev_latest")
                         if dv is not None and dv not in self.seen_backing[k]:
-                            self.facts[k].append((t, "delete-of-dirty-key-exposes-older-backing-value", {"op": rec["id"], "window_op": rec["id"], "dirty_value": dv, "backing": self.backing.get_sync(k)}))
+                            self.facts[k].append((t, "delete-of-dirty-key-exposes-older-backing-value", {"op": rec["id"], "window_op": rec["id"], "dirty_value": dv, "backing": canon(self.backing.get_sync(k))}))
                         continue
                     if rec["kind"] == "invall":
                         how = "invalidate_all-with-dirty-keys"
@@ -191,9 +207,9 @@ class Mon:
                         how = "eviction-of-dirty-key"
                     reached = want is None or want in self.seen_backing[k]
                     self.discards.append({"t": t, "key": k, "want": want, "how": how, "op": rec["id"], "tier": tier.label, "reached": reached})
-                elif self.backing.get_sync(k) != want:
+                elif canon(self.backing.get_sync(k)) != want:
                     # dirty flag cleared while the cache holds a value the backing store has not got
-                    self.facts[k].append((t, "flush-overlaps-write", {"op": rec["id"], "backing": self.backing.get_sync(k), "latest": want}))
+                    self.facts[k].append((t, "flush-overlaps-write", {"op": rec["id"], "backing": canon(self.backing.get_sync(k)), "latest": want}))
 
     def _record_write(self, rec, strong=True):
         w = {"kind": rec["kind"], "key": rec["key"], "val": rec["val"], "start": rec["start"], "end": None, "strong": strong, "op": rec["id"]}
@@ -213,7 +229,8 @@ class Mon:
 
     def do(self, cid, kind, key=None, val=None):
         """Generator: run one client operation against the cache, recording it at the client boundary."""
-        rec = {"id": len(self.hist), "c": cid, "kind": kind, "key": key, "val": val, "start": self.now(), "end": None, "res": None}
+        raw = val
+        rec = {"id": len(self.hist), "c": cid, "kind": kind, "key": key, "val": canon(val), "start": self.now(), "end": None, "res": None}
         self.hist.append(rec)
         st = self.store
         pre = self._pre()
@@ -231,7 +248,7 @@ class Mon:
             gen = t2.get(key)
         elif kind == "put":
             w = self._record_write(rec)
-            gen = st.put(key, val)
+            gen = st.put(key, raw)
         elif kind == "delete":
             rec["val"] = None
             w = self._record_write(rec)
@@ -256,7 +273,7 @@ class Mon:
             rec["was_cached"] = bool(st.contains_cached(key)) if hasattr(st, "contains_cached") else None
             w = self._record_write(rec, strong=not kind.endswith("_raw"))
             if kind.startswith("bput"):
-                self.backing.put_sync(key, val)
+                self.backing.put_sync(key, raw)
             else:
                 self.backing.delete_sync(key)
             if not kind.endswith("_raw"):
@@ -282,7 +299,7 @@ class Mon:
                         finally:
                             self._post(rec, pre)
                 except StopIteration as stop:
-                    rec["res"] = stop.value
+                    rec["res"] = canon(stop.value) if kind in ("get", "l2get") else stop.value
             else:
                 self._post(rec, pre)
         finally:
@@ -452,6 +469,8 @@ class Mon:
         shape, info = self._attribute(k, wstar["start"], rec["end"], issued=rec["start"], value=r)
         if path:
             shape = path
+        elif shape == "unattributed" and wstar["val"] is not None and not is_tagged(wstar["val"]):
+            shape = "newest-write-has-falsy-value"
         self.res.count("stale_reads")
         if shape.startswith("after-"):
             self.res.count("stale_reads_downstream_of_reported_discard")
@@ -473,7 +492,7 @@ class Mon:
         return out
 
     def snapshot_final_backing(self, oracle):
-        self.final_snapshot = (oracle, self.now(), {k: self.backing.get_sync(k) for k in self.keys})
+        self.final_snapshot = (oracle, self.now(), {k: canon(self.backing.get_sync(k)) for k in self.keys})
 
     def check_final_backing(self):
         """After the final flush the backing store holds a latest value of every key."""
